@@ -157,7 +157,7 @@ PROPS["C10"] = {
     "modules": ["contracts.ops_mk"],
     "contracts": ["hdc/algo/ops/stats.py::mk_score", "hdc/algo/ops/stats.py::mk_z_score", "hdc/algo/ops/stats.py::mk_p_value",
                   "ghost:contracts/ghost_stats.py::tiesum_zero", "hdc/algo/ops/stats.py::mk_variance_s",
-                  "ghost:contracts/ghost_stats.py::pb_mono", "hdc/algo/ops/stats.py::mk_sens_slope",
+                  "ghost:contracts/ghost_stats.py::pb_mono", "ghost:contracts/ghost_stats.py::pb_closed", "hdc/algo/ops/stats.py::mk_sens_slope",
                   "hdc/algo/ops/stats.py::mann_kendall_trend_1d", "hdc/algo/ops/stats.py::_mann_kendall_trend_gu_nd"],
     "standin": True,
     "level": "proof",
